@@ -325,6 +325,14 @@ class Node:
             )
 
         if new_data_id is not None:
+            # No re-keyed node may get a sibling with the same data_id
+            for n in cur_nodes if (has_clones and with_clones) else [self]:
+                for sibling in n._parent._children:  # type: ignore
+                    if sibling._data_id == new_data_id:
+                        raise UniqueConstraintError(
+                            f"data_id {new_data_id!r} already exists in parent"
+                        )
+
             # data_id (and possibly data) changes: we have to update the map
             if has_clones:
                 if with_clones:
